@@ -117,11 +117,24 @@ func teardown() {
 	}
 	done := make(chan struct{})
 	go func(s *state) { s.wg.Wait(); close(done) }(st)
+	finished := false
 	select {
 	case <-done:
+		finished = true
 	case <-time.After(300 * time.Millisecond):
+		// slow (a loaded machine) or stuck (a lost wake-up): give it more time once ...
+		select {
+		case <-done:
+			finished = true
+		case <-time.After(3 * time.Second):
+		}
 	}
-	_ = st.p.Close()
+	if finished {
+		_ = st.p.Close()
+	}
+	// ... and if its goroutines are still alive, the poller is NOT closed: they would go on using descriptor numbers
+	// that the next case's poller gets (this corrupted a later case of a generator run on a heavily loaded machine
+	// once: "generator of driver wake failed"). Two descriptors are leaked per such case instead.
 	// drain stale events
 	for {
 		select {
